@@ -1,3 +1,128 @@
 import FiberModel.DriverUtil
--- stub driver for C02; replaced when the property's model lands
-def main : IO Unit := pure ()
+import FiberModel.C02.Known
+/-
+Driver for C02. Case fields (after the id):
+  cfg(3 bits CaseSensitive StrictRouting UnescapePath)  use(0/1)  pattern(hex)  path(hex)
+  customs(hexlist)  vtf  vts  implObs
+vtf / vts: `hex(key)=hexlist(values with verdict true)` joined by `;` (`-` = none): verdicts of the
+abstractly modelled constraints over the '/'-free substrings of the user-visible path, vtf from the
+real code (feeds the model), vts from the standard library (feeds the spec oracle).
+-/
+open B DriverUtil C02
+
+namespace C02Driver
+
+abbrev Table := List (Bytes × List Bytes)
+
+def parseTable (s : String) : Option Table :=
+  if s == "-" then some []
+  else (s.splitOn ";").mapM fun e =>
+    match e.splitOn "=" with
+    | [k, v] => do
+      let k ← fromHex k
+      let v ← hexList v
+      pure (k, v)
+    | _ => none
+
+def Constraint.key (c : Constraint) : Bytes := c.name ++ [LPAR] ++ join c.data [COMMA] ++ [RPAR]
+
+def absOf (t : Table) (c : Constraint) (v : Bytes) : Bool :=
+  match t.find? (·.1 == Constraint.key c) with
+  | some e => e.2.contains v
+  | none => false
+
+/-- abstract constraints of a segment list whose key is missing from the table -/
+def missingKeys (custom : List Bytes) (t : Table) (segs : List Seg) : Bool :=
+  segs.any fun s => s.constraints.any fun c =>
+    (custom.contains c.name || c.id == .float || c.id == .guid || c.id == .datetime || c.id == .regex) &&
+    !(c.data.isEmpty && (c.id == .datetime || c.id == .regex) && !custom.contains c.name) &&
+    (t.find? (·.1 == Constraint.key c)).isNone
+
+def renderObs (o : Obs) : String :=
+  if o.panic then "panic"
+  else if o.ran == 0 then s!"ran=0;st={o.status}"
+  else s!"ran={o.ran};st={o.status};path={toHexField o.path};rpath={toHexField o.rpath};" ++
+       s!"names={hexListField o.names};vals={hexListField o.vals}"
+
+def parseObs (s : String) : Option Obs :=
+  if s == "panic" then some { panic := true }
+  else do
+    let kv := (s.splitOn ";").filterMap fun p => match p.splitOn "=" with
+      | [k, v] => some (k, v) | _ => none
+    let get (k : String) : Option String := (kv.find? (·.1 == k)).map (·.2)
+    let ran ← (← get "ran").toNat?
+    let st ← (← get "st").toNat?
+    if ran == 0 then pure { ran := 0, status := st }
+    else pure { ran := ran, status := st, path := ← (get "path").bind fromHex, rpath := ← (get "rpath").bind fromHex,
+                names := ← (get "names").bind hexList, vals := ← (get "vals").bind hexList }
+
+/-- the model of one request against a single-route app -/
+def serve (custom : List Bytes) (abs : Constraint → Bytes → Bool) (cfg : Config) (use : Bool)
+    (pattern reqPath : Bytes) : Obs :=
+  match register cfg use pattern with
+  | none => { panic := true }
+  | some r =>
+    let (path, det) := configDependentPaths cfg reqPath
+    match dispatch1 (checkConstraint custom abs) r det path with
+    | none => { ran := 0, status := 404 }
+    | some vals =>
+      { ran := 1, status := 200, path := path, rpath := r.pathRaw, names := r.params,
+        vals := r.params.map (paramsLookup cfg r.params vals) }
+
+def parseCfg (s : String) : Option Config :=
+  match s.toList with
+  | [a, b, c] =>
+    if [a, b, c].all (fun x => x == '0' || x == '1') then
+      some { caseSensitive := a == '1', strictRouting := b == '1', unescapePath := c == '1' }
+    else none
+  | _ => none
+
+def handleCase (f : List String) : Except String Verdict := do
+  match f with
+  | [id, cfg, use, pat, path, customs, vtf, vts, impl] =>
+    let some cfg := parseCfg cfg | throw "outside-domain: cfg"
+    unless use == "0" || use == "1" do throw "outside-domain: use"
+    let use := use == "1"
+    let some pat := fromHex pat | throw "outside-domain: pattern"
+    let some path := fromHex path | throw "outside-domain: path"
+    let some customs := hexList customs | throw "outside-domain: customs"
+    let some vtf := parseTable vtf | throw "outside-domain: vtf"
+    let some vts := parseTable vts | throw "outside-domain: vts"
+    unless path.headD 0 == SLASH && !(path.take 2 == [SLASH, SLASH]) && !path.contains 63 && !path.contains 35 do
+      throw "outside-domain: request path must start with one '/', no query/fragment"
+    let some io := parseObs impl | throw "outside-domain: observation"
+    let mo := serve customs (absOf vtf) cfg use pat path
+    let declared := (parseRoute (rawPattern pat)).map (·.segs)
+    let routed := (parseRoute (prettyPattern cfg pat)).map (·.segs)
+    match declared, routed with
+    | some declared, some routed =>
+      let outside := missingKeys customs vtf routed || missingKeys customs vts declared
+      let chkDecl := checkConstraint customs (absOf vts)
+      -- duplicate parameter names (case-insensitively unless CaseSensitive): Params(name) cannot
+      -- report the positional values, the substitution clause is not evaluable (documented assumption)
+      let declNames := (paramSegs declared).map (fun s => if cfg.caseSensitive then s.paramName else toLower s.paramName)
+      let dup := declNames.eraseDups.length != declNames.length
+      let spec := if outside || dup then none else specViolation cfg use declared routed chkDecl io
+      -- known finding K1 only explains a `constraints` failure on a fold-sensitive constraint
+      let known : Option String :=
+        if spec == some "constraints" && Known.K1 cfg customs declared &&
+           (match constraintViolation chkDecl (paramSegs declared) io.vals with
+            | some (_, c) => Known.foldSensitive customs c | none => false)
+        then some "K1" else none
+      let kind := if (paramSegs routed).isEmpty then "literal"
+                  else if (paramSegs routed).any (·.isGreedy) then "greedy" else "named"
+      let hasC := (paramSegs routed).any (!·.constraints.isEmpty)
+      let nt := if io.ran == 1 && !(paramSegs routed).isEmpty then ["nt-match"]
+                else if io.ran == 0 && hasC then ["nt-reject-constrained"] else []
+      let tags := [if use then "use" else "get", kind, if io.ran == 1 then "ran" else "notran"] ++
+                  (if hasC then ["constrained"] else []) ++ nt ++ (if outside then ["outside-model"] else []) ++ (if dup then ["dup-names"] else [])
+      pure { id := id, modelObs := if outside then impl else renderObs mo, implObs := impl, spec := spec,
+             known := known, tags := tags }
+    | _, _ =>
+      -- the model says registration panics: nothing is served, the property is silent
+      pure { id := id, modelObs := renderObs mo, implObs := impl, spec := none, tags := ["reg-panic"] }
+  | _ => throw s!"outside-domain: expected 9 fields, got {f.length}"
+
+end C02Driver
+
+def main : IO Unit := run C02Driver.handleCase
